@@ -61,11 +61,11 @@ package dns
 //@   ensures rdl:  err == nil && off < len(msg) ==> len(truncmsg) == off1 + rr.Rdlength
 //@   ensures fail: err != nil ==> len(truncmsg) == len(msg)
 
-//@ func escapeByte [C02 C03 C05]
+//@ func escapeByte [C02]
 //@   requires b < 32 || b > 126
 //@   ensures 1 <= len(ret0) && len(ret0) <= 4
 
-//@ func isDomainNameLabelSpecial [C02 C03]
+//@ func isDomainNameLabelSpecial [C02]
 
 //@ func UnpackDomainName [C02 C03]
 //@   requires 0 <= off
